@@ -626,8 +626,14 @@ template<typename T>
 T fast_atoi(const char *str, const char term='\0')
 {
 	T retval(0);
+	if (std::is_signed<T>::value && *str == '-')	// accumulate downwards so that the minimum value parses
+	{
+		for (++str; *str != term; ++str)
+			retval = retval * 10 - (*str - '0');
+		return retval;
+	}
 	for (; *str != term; ++str)
-		retval = (retval << 3) + (retval << 1) + *str - '0';
+		retval = retval * 10 + (*str - '0');
 	return retval;
 }
 
